@@ -464,6 +464,13 @@ func TestVerifC07Rtmp(t *testing.T) {
 	fams := []*vC07Fam{
 		{name: "rtmp-one-message-128", dec: "rtmp.read", cost: "rtmp.read", build: func(n int) []byte { return oneMsg(n, 128, false) }},
 		{name: "rtmp-one-message-chunk1", dec: "rtmp.read", build: func(n int) []byte { return oneMsg(n, 1, true) }},
+		{name: "rtmp-big-message-then-small", dec: "rtmp.read", build: func(n int) []byte {
+			out := oneMsg(n/2, 128, false)
+			for len(out)+13 <= n {
+				out = append(out, 3, 0, 0, 0, 0, 0, 1, 9, 1, 0, 0, 0, 0x17)
+			}
+			return out
+		}},
 		{name: "rtmp-dense-empty-messages", dec: "rtmp.read", build: func(n int) []byte {
 			out := []byte{3, 0, 0, 0, 0, 0, 0, 9, 1, 0, 0, 0}
 			for len(out) < n {
